@@ -1,14 +1,44 @@
 package p_lru
 
 import (
+	"math"
+	"strings"
 	"testing"
 
 	"pgregory.net/rapid"
 	"verifharness/internal/vstat"
 )
 
-func genXCase(t *rapid.T, free bool) XCase {
-	c := XCase{Cap: rapid.IntRange(1, 4).Draw(t, "cap"), NKeys: rapid.IntRange(1, 6).Draw(t, "nkeys")}
+// genXCap draws the capacity of a concurrent case: 1..4, or (one case in seven) one of the huge capacities that stand for
+// "unbounded" - math.MaxInt, math.MaxInt-1, 2^40, 2^31, 2^16: such a cache never evicts.
+func genXCap(t *rapid.T) int {
+	if rapid.IntRange(0, 6).Draw(t, "hugeCapacity") == 0 {
+		return rapid.SampledFrom(HugeCaps).Draw(t, "hugeCap")
+	}
+	return rapid.IntRange(1, 4).Draw(t, "cap")
+}
+
+// genXNil draws the kind of value a successful creation hands over in a case with an interface-typed value.
+func genXNil(t *rapid.T, iface bool, label string) int {
+	if !iface {
+		return KindValue
+	}
+	switch n := rapid.IntRange(0, 9).Draw(t, label); {
+	case n < 5:
+		return KindValue
+	case n < 9:
+		return KindNilIface
+	}
+	return KindNilPtr
+}
+
+func genXDec(t *rapid.T, iface bool) XDec {
+	return XDec{C: rapid.IntRange(0, 5).Draw(t, "c"), I: rapid.IntRange(0, 7).Draw(t, "i"), OK: rapid.IntRange(0, 3).Draw(t, "ok") != 0, Nil: genXNil(t, iface, "nil")}
+}
+
+func genXCase(t *rapid.T, mode string) XCase {
+	free := mode == modeFree
+	c := XCase{Cap: genXCap(t), NKeys: rapid.IntRange(1, 6).Draw(t, "nkeys")}
 	nw := rapid.IntRange(2, 4).Draw(t, "workers")
 	maxOps := 6
 	if free {
@@ -17,6 +47,17 @@ func genXCase(t *rapid.T, free bool) XCase {
 	// one case in four: a long recency history on one worker (hits, removals of the most recent key, evictions) with the
 	// other workers interfering a little
 	long := rapid.IntRange(0, 3).Draw(t, "longWorker") == 0
+	kinds := []string{"g", "g", "g", "g", "g", "r", "r", "c"}
+	if mode == modeSqueezed {
+		// small: the squeezes are about callers that meet on one key while the cache is full of the other one(s)
+		c.NKeys = rapid.IntRange(1, 3).Draw(t, "nkeysSqueezed")
+		if c.Cap <= 4 {
+			c.Cap = rapid.SampledFrom([]int{1, 1, 1, 2, 2, 3}).Draw(t, "capSqueezed")
+		}
+		nw = rapid.IntRange(3, 5).Draw(t, "workersSqueezed")
+		long = false
+		kinds = []string{"g", "g", "g", "g", "g", "g", "g", "g", "r", "c"}
+	}
 	for i := 0; i < nw; i++ {
 		n := rapid.IntRange(1, maxOps).Draw(t, "nops")
 		if long && i == 0 {
@@ -26,7 +67,7 @@ func genXCase(t *rapid.T, free bool) XCase {
 		}
 		var p []XOp
 		for j := 0; j < n; j++ {
-			k := rapid.SampledFrom([]string{"g", "g", "g", "g", "g", "r", "r", "c"}).Draw(t, "kind")
+			k := rapid.SampledFrom(kinds).Draw(t, "kind")
 			if long && i == 0 {
 				k = rapid.SampledFrom([]string{"g", "g", "g", "g", "g", "g", "g", "r", "r", "r", "c"}).Draw(t, "kindLong")
 			}
@@ -35,41 +76,74 @@ func genXCase(t *rapid.T, free bool) XCase {
 		c.Programs = append(c.Programs, p)
 	}
 	c.NoCB = rapid.IntRange(0, 3).Draw(t, "noCallback") == 0
+	c.Iface = rapid.IntRange(0, 2).Draw(t, "interfaceTypedValue") == 0
 	if free {
 		c.FailPct = rapid.SampledFrom([]int{0, 20, 50}).Draw(t, "failpct")
 		c.Yields = rapid.IntRange(0, 4).Draw(t, "yields")
 		c.SlowDelete = rapid.Bool().Draw(t, "slowDelete")
+		if c.Iface {
+			c.NilPct = rapid.SampledFrom([]int{30, 60, 100}).Draw(t, "nilpct")
+		}
 		return c
 	}
 	nd := rapid.IntRange(0, 60).Draw(t, "ndecs")
 	for i := 0; i < nd; i++ {
-		c.Decs = append(c.Decs, XDec{C: rapid.IntRange(0, 5).Draw(t, "c"), I: rapid.IntRange(0, 7).Draw(t, "i"), OK: rapid.IntRange(0, 3).Draw(t, "ok") != 0})
+		d := genXDec(t, c.Iface)
+		if mode == modeSqueezed && rapid.IntRange(0, 2).Draw(t, "squeeze") == 0 {
+			d.OK = d.OK || rapid.IntRange(0, 2).Draw(t, "squeezeOK") > 0 // mostly a creation that succeeds
+			for j, n := 0, rapid.IntRange(1, 3).Draw(t, "overtakers"); j < n; j++ {
+				d.Over = append(d.Over, genXDec(t, c.Iface))
+			}
+		}
+		c.Decs = append(c.Decs, d)
 	}
 	return c
 }
 
-func recordC09(c XCase, info XInfo, mode string) {
+func recordXCase(prop string, c XCase, info XInfo, mode string) {
 	cl := []string{"mode:" + mode}
-	if c.NoCB {
-		cl = append(cl, "cache_without_delete_callback")
+	add := func(b bool, s string) {
+		if b {
+			cl = append(cl, s)
+		}
 	}
-	if info.Overlap {
-		cl = append(cl, "two_workers_in_getorcreate_of_one_key")
-	}
-	if info.MidMutation {
-		cl = append(cl, "removal_between_creation_start_and_insertion")
-	}
-	st := vstat.For("C09")
+	add(c.NoCB, "cache_without_delete_callback")
+	add(info.Overlap, "two_workers_in_getorcreate_of_one_key")
+	add(info.MidMutation, "removal_between_creation_start_and_insertion")
+	add(c.Iface, "interface_typed_value")
+	add(info.NilCreated > 0, "iface_creation_returned_nil_value")
+	add(info.NilDeleted > 0, "iface_nil_value_passed_to_delete_callback")
+	add(info.NilHits > 0, "iface_hit_or_wait_returned_nil_value")
+	add(c.Cap >= hugeCap, "cap_huge")
+	add(c.Cap == math.MaxInt, "cap_maxint")
+	add(info.Squeezes > 0, "squeezed")
+	add(info.SqueezedWaiters, "squeezed_creation_with_waiters")
+	add(info.SqueezedCompletion, "squeezed_waiters_overtaken_by_another_insertion")
+	add(info.SqueezedCall, "squeezed_waiters_overtaken_by_a_call")
+	add(info.Diverged, "abandoned_functional_divergence")
+	st := vstat.For(prop)
 	if info.Inconclusive {
 		st.Inconclusivef("the linearizability checker gave up on a history of %d calls", info.Calls)
 	}
-	st.Case(info.Overlap || info.MidMutation, vstat.Hash(c)^vstat.HashBytes([]byte(mode)), func() any { return c }, cl...)
-	st.AddExtra("cache_calls", int64(info.Calls))
+	nontrivial := info.Overlap || info.MidMutation
+	if prop == propWalk {
+		nontrivial = info.SqueezedWaiters && !info.Diverged && info.Walks > 0
+		st.AddExtra("lru_conc_verifwalk_calls", int64(info.Walks))
+		st.AddExtra("lru_conc_squeezes", int64(info.Squeezes))
+		st.AddExtra("lru_conc_calls_executed", int64(info.Calls))
+	} else {
+		st.AddExtra("cache_calls", int64(info.Calls))
+		st.AddExtra("verifwalk_calls", int64(info.Walks))
+		st.AddExtra("squeezes", int64(info.Squeezes))
+	}
+	st.Case(nontrivial, vstat.Hash(c)^vstat.HashBytes([]byte(mode)), func() any { return c }, cl...)
 }
+
+func recordC09(c XCase, info XInfo, mode string) { recordXCase("C09", c, info, mode) }
 
 func TestC09Controlled(t *testing.T) {
 	rapid.Check(t, func(rt *rapid.T) {
-		c := genXCase(rt, false)
+		c := genXCase(rt, modeControlled)
 		info, v, hist := RunControlled(t, c)
 		if v != nil {
 			c.History = hist
@@ -81,7 +155,7 @@ func TestC09Controlled(t *testing.T) {
 
 func TestC09Free(t *testing.T) {
 	rapid.Check(t, func(rt *rapid.T) {
-		c := genXCase(rt, true)
+		c := genXCase(rt, modeFree)
 		info, v, hist := RunFree(c)
 		if v != nil {
 			c.History = hist
@@ -91,33 +165,85 @@ func TestC09Free(t *testing.T) {
 	})
 }
 
-func init() {
-	replayHandlers["TestC09Controlled"] = func(t *testing.T, path string) {
-		var c XCase
-		if _, err := vstat.LoadReplay(path, &c); err != nil {
-			t.Fatalf("cannot decode %s: %v", path, err)
-		}
-		c.History = nil
-		info, v, hist := RunControlled(t, c)
+func needSqueeze(t *testing.T, prop string) {
+	if !SqueezeAvailable() {
+		vstat.For(prop).Inconclusivef("the accessor VerifWithLock is not compiled into container/lru (overlay absent or hooks disabled): the squeezed schedules cannot be run")
+		t.Skip("VerifWithLock not available")
+	}
+}
+
+// TestC09Squeezed: the controlled mode's cases on the real clock with squeezes (see RunSqueezed).
+func TestC09Squeezed(t *testing.T) {
+	needSqueeze(t, "C09")
+	rapid.Check(t, func(rt *rapid.T) {
+		c := genXCase(rt, modeSqueezed)
+		info, v, hist := RunSqueezed(c, "C09", "TestC09Squeezed")
 		if v != nil {
 			c.History = hist
 		}
-		vstat.For("C09").Report(t, "TestReplay", c, v)
-		recordC09(c, info, "controlled")
+		vstat.For("C09").Report(rt, "TestC09Squeezed", c, v)
+		recordC09(c, info, "squeezed")
+	})
+}
+
+// TestC11LruConc: the same runs judged on the structure of the recency list only (LRU part of C11 under concurrency):
+// at every quiescent point resident <= capacity, nodes == resident+1, no reference counts, no removed node linked,
+// in-flight table == creations in progress; after the final Clear nothing is left.
+func TestC11LruConc(t *testing.T) {
+	needWalk(t)
+	needSqueeze(t, propWalk)
+	rapid.Check(t, func(rt *rapid.T) {
+		c := genXCase(rt, modeSqueezed)
+		info, v, hist := RunSqueezed(c, propWalk, "TestC11LruConc")
+		if v != nil && !strings.HasPrefix(v.Sig, "lru:walk-") {
+			info.Diverged, v = true, nil
+		}
+		if v != nil {
+			c.History = hist
+		}
+		vstat.For(propWalk).Report(rt, "TestC11LruConc", c, v)
+		recordXCase(propWalk, c, info, "squeezed")
+	})
+}
+
+// replaySchedules: the schedule of the free-running and the squeezed mode is not reproducible (the squeezes nearly are), the
+// programs and decisions are: the case is run n times.
+func replayRuns(t *testing.T, path string, n int, run func(c XCase) (XInfo, *vstat.Violation, []XRec), prop, mode string) {
+	var c XCase
+	if _, err := vstat.LoadReplay(path, &c); err != nil {
+		t.Fatalf("cannot decode %s: %v", path, err)
+	}
+	c.History = nil
+	for i := 0; i < n; i++ {
+		info, v, hist := run(c)
+		if v != nil {
+			c.History = hist
+		}
+		vstat.For(prop).Report(t, "TestReplay", c, v)
+		recordXCase(prop, c, info, mode)
+	}
+}
+
+func init() {
+	replayHandlers["TestC09Controlled"] = func(t *testing.T, path string) {
+		replayRuns(t, path, 1, func(c XCase) (XInfo, *vstat.Violation, []XRec) { return RunControlled(t, c) }, "C09", "controlled")
 	}
 	replayHandlers["TestC09Free"] = func(t *testing.T, path string) {
-		var c XCase
-		if _, err := vstat.LoadReplay(path, &c); err != nil {
-			t.Fatalf("cannot decode %s: %v", path, err)
-		}
-		c.History = nil
-		for i := 0; i < 300; i++ { // the schedule is not reproducible, the programs are
-			info, v, hist := RunFree(c)
-			if v != nil {
-				c.History = hist
+		replayRuns(t, path, 300, RunFree, "C09", "free")
+	}
+	replayHandlers["TestC09Squeezed"] = func(t *testing.T, path string) {
+		needSqueeze(t, "C09")
+		replayRuns(t, path, 20, func(c XCase) (XInfo, *vstat.Violation, []XRec) { return RunSqueezed(c, "C09", "TestReplay") }, "C09", "squeezed")
+	}
+	replayHandlers["TestC11LruConc"] = func(t *testing.T, path string) {
+		needWalk(t)
+		needSqueeze(t, propWalk)
+		replayRuns(t, path, 20, func(c XCase) (XInfo, *vstat.Violation, []XRec) {
+			info, v, hist := RunSqueezed(c, propWalk, "TestReplay")
+			if v != nil && !strings.HasPrefix(v.Sig, "lru:walk-") {
+				info.Diverged, v = true, nil
 			}
-			vstat.For("C09").Report(t, "TestReplay", c, v)
-			recordC09(c, info, "free")
-		}
+			return info, v, hist
+		}, propWalk, "squeezed")
 	}
 }
